@@ -69,14 +69,4 @@ func runL1Stream(cfg L1StreamCfg, seed uint64, tier string, outdir string) *Repo
 	return rep
 }
 
-func init() { register("C11", genC11) }
-
-func genC11(seed uint64, tier, outdir string) *Report {
-	w := DefaultL1Weights
-	w.Propose, w.Delete, w.Claim, w.Deposit = 40, 16, 6, 8
-	return runL1Stream(L1StreamCfg{Prop: "C11", Weights: w, NCases: [2]int{40, 600}, Len: [2]int{60, 120},
-		Rule: "a case is one random L1 history on a fresh instance; distinct by hash of the op list; non-trivial = at least 3 operation kinds succeeded and at least 2 kinds were rejected"},
-		seed, tier, outdir)
-}
-
 var _ = fmt.Sprintf
